@@ -187,7 +187,8 @@ static int filter_assembly_str_fsa(const char unfiltered_str[],
       break;
     }
     // last printable ascii character
-    FAIL_IF_MSG(unfiltered_str[i] > '~', "Printable ascii characters only\n");
+    FAIL_IF_MSG((unsigned char)unfiltered_str[i] > '~',
+                "Printable ascii characters only\n");
     i++;
   }
   return i;
